@@ -321,6 +321,13 @@ func TailFamily() []Query {
 		"MATCH (n:NodeKind1) MATCH (n)-[:EdgeKind1*1..]->(m:NodeKind2) WITH n, count(m) AS c RETURN n, c ORDER BY c DESC",
 		"MATCH (n:NodeKind1) MATCH (n)-[:EdgeKind1*1..]->(m:NodeKind2) WITH n, count(m) AS c RETURN n, c ORDER BY c",
 		"MATCH (n:NodeKind1) MATCH (n)-[:EdgeKind1*1..]->(m:NodeKind2) WITH n, count(m) AS c WHERE c > 1 RETURN n, c",
+		"MATCH (n:NodeKind1) MATCH (n)-[:EdgeKind1*0..]->(m:NodeKind1) WITH n, count(m) AS c RETURN n, c ORDER BY c DESC LIMIT 3",
+		"MATCH (n:NodeKind1) MATCH (n)-[:EdgeKind1*0..]->(m:NodeKind1) WITH n, count(m) AS c RETURN n, c ORDER BY c DESC",
+		"MATCH (n:NodeKind1) MATCH (n)-[:EdgeKind1*0..]->(m) WITH n, count(m) AS c RETURN n, c ORDER BY c DESC LIMIT 1",
+		"MATCH (n:NodeKind1) MATCH (n)-[:EdgeKind1*2..]->(m:NodeKind2) WITH n, count(m) AS c RETURN n, c ORDER BY c DESC LIMIT 3",
+		"MATCH (n:NodeKind1) MATCH (n)-[:EdgeKind1*1..2]->(m:NodeKind2) WITH n, count(m) AS c RETURN n, c ORDER BY c DESC LIMIT 3",
+		"MATCH (n:NodeKind1) MATCH (n)<-[:EdgeKind1*1..]-(m:NodeKind2) WITH n, count(m) AS c RETURN n, c ORDER BY c DESC LIMIT 3",
+		"MATCH (n:NodeKind1) MATCH (n)-[:EdgeKind1|EdgeKind2*1..]->(m:NodeKind2) WITH DISTINCT n, count(m) AS c RETURN n ORDER BY c DESC LIMIT 3",
 		"MATCH (n:NodeKind1) WITH collect(n) AS ns MATCH (m:NodeKind2) WHERE m IN ns RETURN m",
 		"MATCH (n:NodeKind1) WITH collect(n) AS ns MATCH (m:NodeKind2) WHERE m IN ns RETURN m, ns",
 		"MATCH (n:NodeKind1) WITH collect(n) AS ns MATCH (m:NodeKind2) WHERE NOT m IN ns RETURN m, size(ns)",
